@@ -178,12 +178,13 @@ CLAIMED = {
         text="Coq theorems (Numeric.v): for every numops implementation exact on the values involved, MaximumNativeType / "
              "MinimumNativeType (as transcribed) report an error exactly when the carried rational exceeds / reaches the bound, for all "
              "ten integer kinds and both float widths, hence the verdict is independent of the carrier; MultipleOf with an integral factor "
-             "on an integer carrier is integer divisibility. Tie: every (value, constraint) group is run through every exact carrier and "
+             "on an integer carrier is integer divisibility; the Flocq binary64 instance is proved to satisfy the exactness interface "
+             "(Base/F64Exact.v: order = order of the values, integer value, exact conversion of integers within +-2^53), so the theorems "
+             "are also stated of the model that is run against Go. Tie: every (value, constraint) group is run through every exact carrier and "
              "every entry point (helper, parameter, header, schema, json.Number), compared with the Flocq-instantiated model and with "
              "exact rational arithmetic; the Flocq float model is compared with Go bit for bit on 20 000 operations per run.",
-        note=TB + "No axioms in the theorems (they are parametric in the numeric operations); that Flocq's binary64 satisfies the "
-             "exactness interface on +-2^53 is validated by the bit-exact float self-test, not proved. Fractional multipleOf and the "
-             "integer test are the recorded class numeric-inexact (swag dependency).",
+        note=TB + "No axioms in the parametric theorems; the binary64 instance theorems inherit the stdlib real-number axioms, classic and "
+             "functional extensionality through Flocq. Fractional multipleOf and the integer test are the recorded class numeric-inexact (swag dependency).",
         tech="Rocq proof (carrier independence over an exactness interface) + multi-carrier correspondence + bit-exact float model test",
         ref="DESIGN.md 5/C13"),
     "C14": dict(
@@ -219,14 +220,15 @@ CLAIMED = {
              "the decision procedure is proved sound and evaluated on every case (about 40% of the quick run inside); typed values "
              "(int8..uint64 strictly inside +-2^53, float32, typed slices, []interface{} of such) are proved to be judged like the JSON "
              "value they carry, for every numeric implementation exact on the numbers involved (exact_iface of C13 + carrier_iface), "
-             "on a decidable class (another 40% of the quick run; conditional: the Flocq instance is not proved to satisfy the two "
-             "interfaces, the check compares the binary64 model with the reading on every such case); nil is not validated, every other value is; the first-error exit of the six-validator chain is sound. "
+             "on a decidable class (another 40% of the quick run); the Flocq binary64 instance is proved to satisfy both interfaces "
+             "(Base/F64Exact.v, Schema/NumericFlocq.v), so the typed-value agreement holds of the model run against Go, except where an "
+             "integer carrier meets a positive integral multipleOf factor that does not divide it (mult_iface assumed; 2.6% of the cases, "
+             "counted apart); nil is not validated, every other value is; the first-error exit of the six-validator chain is sound. "
              "Tie: result projection (verdict, (code,name) set, MatchCount, error count) on typed Go values built by reflection, plain "
              "and recycling; inside the class Go's verdict must equal the reading's; outside, failing-input search against an exact "
              "simple-schema oracle with recorded finding classes.",
         note=TB + "The agreement theorems are axiom-free; the binary64 instance inherits the stdlib real-number axioms, classic and functional extensionality through Flocq. "
-             "The typed-value theorems assume exact_iface and carrier_iface of the numeric implementation (satisfiable: C16_interfaces_satisfiable; true of "
-             "IEEE 754 binary64 but not proved of the Flocq instance). "
+             "exact_iface and carrier_iface are proved of the Flocq instance; only mult_iface (MultipleOf rejects a non-divisor within +-2^26) is assumed, inside the class. "
              "Outside the classes (x-nullable, uniqueItems / enum over typed elements, the recorded finding classes) the verdict is judged per case by the exact oracle (partial).",
         tech="Rocq proof (agreement with the declarative reading on a decidable class, chain soundness, nil handling) + typed-value correspondence + exact oracle",
         ref="DESIGN.md 12/C16"),
